@@ -32,6 +32,28 @@ from vf.core import VERIF
 
 KEY_TAIL = "lost-tail-unreported"
 
+# argument capture of the traced functions f<k> (UFTRACE_ARGUMENT): widths of the saved values in bytes;
+# f1, f5, f7 have a payload of 4 or 12 bytes = 4 bytes of alignment padding that the size test does not count
+ARGW = {1: [4], 2: [8], 3: [4, 4], 4: [8, 8, 8], 5: [4, 8], 7: [4]}
+ARGSPEC = "f1@arg1/i32;f2@arg1/i64;f3@arg1/i32,arg2/i32;f4@arg1,arg2,arg3;f5@arg1/i32,arg2/i64;f7@arg1/i32"
+ALIGNED_K = [0, 2, 3, 4, 6]
+
+
+def payload(o):
+    """saved argument bytes of an ("E", t, k, time, vals) operation"""
+    if len(o) < 5:
+        return b""
+    out = b""
+    for w, v in zip(ARGW[o[2]], o[4]):
+        out += (v & ((1 << (8 * w)) - 1)).to_bytes(w, "little")
+    return out
+
+
+def e_line(o):
+    if len(o) < 5:
+        return "E %d %d" % (o[2], o[3])
+    return "EA %d %d %s" % (o[2], o[3], " ".join("%d" % v for v in o[4]))
+
 PRE = """From Coq Require Import NArith List Bool.
 Import ListNotations.
 Require Import UV.Gen.Consts UV.C03.Model.
@@ -42,7 +64,7 @@ Require Import UV.Gen.Consts UV.C03.Model.
 class Pair:
     """one recorder + one producer process over <dir>/.channel"""
 
-    def __init__(self, ctx, exes, bufsize, nw, mode, seed, n):
+    def __init__(self, ctx, exes, bufsize, nw, mode, seed, n, args=None):
         self.ctx = ctx
         self.bufsize = bufsize
         self.nw = nw
@@ -59,6 +81,8 @@ class Pair:
         if l.strip() != "READY":
             raise RuntimeError("c03_recorder did not start: %r %s" % (l, self.rec.stderr.read()[-500:]))
         env.update(UFTRACE_DIR=self.d, UFTRACE_BUFFER=str(bufsize), UFTRACE_PATTERN="simple")
+        if args:
+            env["UFTRACE_ARGUMENT"] = ARGSPEC
         self.pro = subprocess.Popen(["timeout", "120", exes["pro"]], stdin=subprocess.PIPE, stdout=subprocess.PIPE,
                                     stderr=subprocess.PIPE, text=True, bufsize=1, env=env)
         self.pro_alive = True
@@ -159,19 +183,31 @@ class Pair:
             if sz > a:
                 chunks.append((i, self.shm_data(self.tids[t], i, a, sz)))
 
+        def split(data):
+            """whole records of a chunk (a record with the `more` bit carries the saved arguments of its function)"""
+            recs = []
+            j = 0
+            while j < len(data):
+                w = struct.unpack("<Q", data[j + 8:j + 16])[0]
+                n = 16
+                if w & 4:
+                    k = ((w >> 16) - self.base - 4) // 256
+                    n += (sum(ARGW.get(k, [])) + 7) & ~7
+                recs.append(data[j:j + n])
+                j += n
+            return recs
+
         def key(ch):
             i, data = ch
             if i == old[1] and i in pre:
                 return (0, 0)
-            recs = [data[j:j + 16] for j in range(0, len(data), 16)]
-            for r in recs:
+            for r in split(data):
                 if struct.unpack("<Q", r[8:16])[0] & 3 != 2:
                     return (1, struct.unpack("<Q", r[0:8])[0])
             return (2, 0)
         marker = False
         for i, data in sorted(chunks, key=key):
-            for j in range(0, len(data), 16):
-                r = data[j:j + 16]
+            for r in split(data):
                 w = struct.unpack("<Q", r[8:16])[0]
                 if w & 3 == 2:
                     log.append(("M", w >> 16, r))
@@ -257,7 +293,7 @@ class Pair:
 def coq_op(o):
     k = o[0]
     if k == "E":
-        return "OpE %d %d%%N %d%%N" % (o[1], o[2], o[3])
+        return "OpE %d %d%%N %d%%N [%s]%%N" % (o[1], o[2], o[3], "; ".join("%d" % b for b in payload(o)))
     if k == "X":
         return "OpX %d %d%%N" % (o[1], o[2])
     if k == "END":
@@ -286,7 +322,7 @@ def model_ops(ops, soak=False):
 
 def run_step(ctx, exes, case, n):
     """execute a script step by step; returns (snapshots, files, lost, base, info)"""
-    pr = Pair(ctx, exes, case["bufsize"], case["nw"], "step", case["seed"], n)
+    pr = Pair(ctx, exes, case["bufsize"], case["nw"], "step", case["seed"], n, case.get("args"))
     nt = case["nt"]
     snaps = []
     logs = [[] for _ in range(nt)]
@@ -294,7 +330,7 @@ def run_step(ctx, exes, case, n):
         for o in case["ops"]:
             k = o[0]
             if k == "E":
-                pr.hook(o[1], "E %d %d" % (o[2], o[3]), logs[o[1]])
+                pr.hook(o[1], e_line(o), logs[o[1]])
             elif k == "X":
                 pr.hook(o[1], "X %d" % o[2], logs[o[1]])
             elif k == "END":
@@ -328,7 +364,7 @@ def run_step(ctx, exes, case, n):
 
 def run_soak(ctx, exes, case, n):
     """the producer runs the whole script at once; the recorder free-runs with nw writers"""
-    pr = Pair(ctx, exes, case["bufsize"], case["nw"], "soak", case["seed"], n)
+    pr = Pair(ctx, exes, case["bufsize"], case["nw"], "soak", case["seed"], n, case.get("args"))
     nt = case["nt"]
     try:
         pr.rec.stdin.write("RUN\n")
@@ -344,7 +380,7 @@ def run_soak(ctx, exes, case, n):
                 lines.append("T %d" % o[1])
                 cur = o[1]
             if k == "E":
-                lines.append("E %d %d" % (o[2], o[3]))
+                lines.append(e_line(o))
             elif k == "X":
                 lines.append("X %d" % o[2])
             elif k == "END":
@@ -383,9 +419,10 @@ def case_term(case, res):
 
 # ---------------------------------------------------------------- generators
 class Gen:
-    def __init__(self, rng, nt):
+    def __init__(self, rng, nt, args=None):
         self.rng = rng
         self.nt = nt
+        self.args = args            # None: no argument capture; "all": every f<k>; "aligned": payloads of 8n bytes only
         self.time = 1000
         self.depth = [0] * nt
         self.ops = []
@@ -395,7 +432,14 @@ class Gen:
         return self.time
 
     def enter(self, t, k=None):
-        self.ops.append(("E", t, self.rng.randrange(8) if k is None else k, self.tick()))
+        if k is None:
+            k = self.rng.choice(ALIGNED_K) if self.args == "aligned" else self.rng.randrange(8)
+        if self.args and k in ARGW:
+            vals = [self.rng.choice([0, 1, 7, 255, 65536, (1 << 31) - 1, (1 << 32) + 5, (1 << 63) + 9, self.rng.getrandbits(64)])
+                    for _ in ARGW[k]]
+            self.ops.append(("E", t, k, self.tick(), vals))
+        else:
+            self.ops.append(("E", t, k, self.tick()))
         self.depth[t] += 1
 
     def leave(self, t):
@@ -431,9 +475,15 @@ class Gen:
 def gen_random(rng, big=False):
     nt = rng.choice([1, 1, 2, 2, 3])
     nw = rng.choice([1, 2, 2, 3])
-    per = rng.choice([1, 2, 2, 3, 4, 6])            # records per buffer
-    fail = per >= 2 and rng.random() < 0.5             # the LOST marker + one record must fit
-    g = Gen(rng, nt)
+    args = rng.choice([None, "all", "all"])
+    if args:
+        cap = rng.choice([40, 48, 56, 56, 64, 72, 80, 104, 160])    # data bytes per buffer; records are 16..40 bytes
+        fail = cap >= 56 and rng.random() < 0.5          # the LOST marker + the largest record must fit
+    else:
+        per = rng.choice([1, 2, 2, 3, 4, 6])            # records per buffer
+        cap = 16 * per
+        fail = per >= 2 and rng.random() < 0.5             # the LOST marker + one record must fit
+    g = Gen(rng, nt, args)
     g.start_all()
     alive = list(range(nt))
     ended = []
@@ -454,17 +504,27 @@ def gen_random(rng, big=False):
             ended.append(t)
             g.ops.append(("END", t))
     tail_end = [t for t in alive if t != 0 and rng.random() < 0.5]
+    # just before the end: leave work in every place (FIFO, buf_write_list, a writer's lists)
+    if rng.random() < 0.5:
+        for _ in range(rng.randrange(2, 7)):
+            g.prod_step(rng.choice(alive))
+        g.ops += [("M",)] * rng.randrange(0, 4)
+        g.ops += [("W", rng.randrange(nw))] * rng.randrange(0, 2)
+        for _ in range(rng.randrange(1, 5)):
+            g.prod_step(rng.choice(alive))
     ops = g.finish(tail_end, flush_w=rng.randrange(0, 4), nw=nw)
-    return {"bufsize": 16 + 16 * per, "nw": nw, "nt": nt, "ops": ops, "kind": "random",
-            "tags": ["per-buffer=%d" % per] + (["alloc-failures"] if fail else [])}
+    return {"bufsize": 16 + cap, "nw": nw, "nt": nt, "ops": ops, "kind": "random", "args": args,
+            "tags": ["capacity=%d" % cap] + (["args"] if args else ["per-buffer=%d" % (cap // 16)])
+            + (["alloc-failures"] if fail else [])}
 
 
 def directed(rng):
     """scripts aimed at the boundaries of DESIGN appendix B"""
     cases = []
 
-    def mk(name, per, nw, nt, ops, tags):
-        cases.append({"bufsize": 16 + 16 * per, "nw": nw, "nt": nt, "ops": ops, "kind": name, "tags": tags})
+    def mk(name, per, nw, nt, ops, tags, cap=None, args=None):
+        cases.append({"bufsize": 16 + (cap or 16 * per), "nw": nw, "nt": nt, "ops": ops, "kind": name, "tags": tags,
+                      "args": args})
     # 1. one record per buffer; reuse of buffer 0 while buffer 1 is still RECORDING
     g = Gen(rng, 1)
     g.leaf(0)                      # ENTRY in buf0, EXIT in buf1
@@ -528,6 +588,36 @@ def directed(rng):
     g.leaf(0)
     mk("alloc-fail-two-consecutive", 2, 1, 1, g.finish(nw=1), ["per-buffer=2", "alloc-fail-2-consecutive", "lost-marker",
                                                                "parent-entry-refused"])
+    # 7. argument payloads: ENTRY of f4 (16+24) + EXIT (16) fill a 56-byte buffer exactly, every time
+    g = Gen(rng, 1, "all")
+    for _ in range(4):
+        g.enter(0, 4)
+        g.leave(0)
+    g.ops += [("DRAIN",), ("W", 0), ("W", 0)]
+    g.enter(0, 4)
+    g.leave(0)
+    mk("args-exact-fill", 0, 1, 1, g.finish(nw=1), ["args", "capacity=56", "record-fills-buffer-exactly"], cap=56, args="all")
+    # 8. a 4-byte payload (size test 20, advance 24) that ends exactly at the capacity 40
+    g = Gen(rng, 1, "all")
+    g.enter(0, 0)
+    g.enter(0, 1)
+    g.leave(0)                     # ENTRY f0 (16) + ENTRY f1 (16+4, padded to 24) = 40; EXIT -> buffer 1
+    g.leave(0)
+    g.enter(0, 7)
+    g.leave(0)
+    mk("args-pad-ends-at-capacity", 0, 1, 1, g.finish(nw=1), ["args", "capacity=40", "padded-record-ends-at-capacity"],
+       cap=40, args="all")
+    # 9. the alignment padding keeps the bytes the re-used buffer held before
+    g = Gen(rng, 1, "all")
+    for _ in range(3):
+        g.enter(0, 4)              # 24 bytes of arguments, values with no zero byte
+        g.ops[-1] = g.ops[-1][:4] + ([0x1122334455667788, 0x99aabbccddeeff11, 0x1213141516171819],)
+        g.leave(0)
+    g.ops += [("DRAIN",), ("W", 0), ("W", 0), ("W", 0), ("W", 0)]      # buffers released, contents stay
+    for k in (1, 5, 7, 1, 5):
+        g.enter(0, k)              # 4 / 12 bytes of arguments: 4 bytes of padding each
+        g.leave(0)
+    mk("args-stale-padding", 0, 1, 1, g.finish(nw=1), ["args", "capacity=64", "padding-keeps-old-bytes"], cap=64, args="all")
     return cases
 
 
@@ -547,15 +637,19 @@ def gen_soak(rng, big=False):
     nt = rng.choice([1, 2, 3, 4])
     nw = rng.choice([1, 2, 3, 4, 8])
     per = rng.choice([1, 2, 3, 8, 255])          # 255 records = 4 KiB buffers
-    g = Gen(rng, nt)
+    # payloads of 8n bytes only: the alignment padding keeps what the buffer held before, which depends on the schedule
+    args = rng.choice([None, "aligned"])
+    if args and per < 3:
+        per = 3
+    g = Gen(rng, nt, args)
     g.start_all()
     alive = list(range(nt))
     for _ in range(rng.choice([150, 300, 500]) * (3 if big else 1)):
         g.prod_step(rng.choice(alive), maxdepth=4)
     ends = [t for t in range(1, nt) if rng.random() < 0.6]
     ops = g.ops + [("END", t) for t in ends] + [("QUITP",), ("DRAIN",), ("STOP",), ("JOIN",), ("FLUSH",)]
-    return {"bufsize": 16 + 16 * per, "nw": nw, "nt": nt, "ops": ops, "kind": "soak",
-            "tags": ["soak", "per-buffer=%d" % per, "writers=%d" % nw, "threads=%d" % nt]}
+    return {"bufsize": 16 + 16 * per, "nw": nw, "nt": nt, "ops": ops, "kind": "soak", "args": args,
+            "tags": ["soak", "capacity=%d" % (16 * per), "writers=%d" % nw, "threads=%d" % nt] + (["args-aligned"] if args else [])}
 
 
 # ---------------------------------------------------------------- observation-derived boundary tags
@@ -605,6 +699,47 @@ def observed_tags(case, res):
     return sorted(tags)
 
 
+def parse_rec_part(case, s):
+    """recorder part of a snapshot -> (len shmem_list, len buf_write_list, busy writers, buffers handed over directly)"""
+    i = 0
+    for t in range(case["nt"]):
+        i += 1 if s[i] == 999 else 3 + 2 * s[i]
+    i += 1
+    nshl = s[i]
+    i += 1 + nshl
+    nbwl = s[i]
+    i += 1 + nbwl + 1
+    busy = direct = 0
+    for w in range(case["nw"]):
+        busy += 1 if s[i] else 0
+        direct += s[i + 1]
+        i += 2 + s[i + 1]
+    return nshl, nbwl, busy, direct
+
+
+def stop_tags(case, res):
+    """in which situation stop_all_writers found the recorder (the case splits of C03_can_finish)"""
+    mo = model_ops(case["ops"])
+    if ("STOP",) not in mo or not res["snaps"]:
+        return []
+    k = mo.index(("STOP",))
+    if k == 0 or k > len(res["snaps"]):
+        return []
+    nshl, nbwl, busy, direct = parse_rec_part(case, res["snaps"][k - 1])
+    tags = []
+    if busy:
+        tags.append("stop:writer-busy")
+    if direct:
+        tags.append("stop:direct-bufs-pending")
+    if nbwl:
+        tags.append("stop:buf_write_list-nonempty")
+    if nshl > 1:
+        tags.append("stop:several-unfinished-buffers")
+    if not (busy or nbwl):
+        tags.append("stop:quiet")
+    return tags
+
+
 # ---------------------------------------------------------------- the check
 def build_harnesses(ctx):
     objdir = build.get_build("plain", ctx.log)
@@ -634,7 +769,7 @@ def evaluate(ctx, name, cases, results):
 
 def replay_obj(case, res=None, extra=None):
     o = {"mode": case["kind"], "bufsize": case["bufsize"], "nw": case["nw"], "nt": case["nt"], "ops": case["ops"],
-         "case_seed": case["seed"]}
+         "case_seed": case["seed"], "args": case.get("args")}
     if res is not None:
         o["impl_lost"] = res["lost"]
         o["impl_file_sizes"] = [len(f) for f in res["files"]]
@@ -673,9 +808,9 @@ def run(ctx):
     cases += directed(rng)
     tl = tail_loss_case(rng)
     cases.append(tl)
-    for _ in range(ctx.n(40, 320)):
+    for _ in range(ctx.n(32, 250)):
         cases.append(gen_random(rng, big=ctx.thorough()))
-    for _ in range(ctx.n(16, 110)):
+    for _ in range(ctx.n(12, 85)):
         cases.append(gen_soak(rng, big=ctx.thorough()))
     results = []
     kept = []
@@ -690,7 +825,12 @@ def run(ctx):
         kept.append(c)
         results.append(r)
         nrec = sum(len(f) for f in r["files"]) // 16
-        tags = list(c["tags"]) + observed_tags(c, r) + ["mode:" + ("soak" if c["kind"] == "soak" else "step"),
+        sizes = set(len(e[1]) for l in r["logs"] for e in l if e[0] == "E")
+        argtags = ["record-size=%d" % z for z in sorted(sizes) if z != 16]
+        if any(e[0] == "E" and len(e[1]) in (24, 32) and any(e[1][-4:]) and (struct.unpack("<Q", e[1][8:16])[0] >> 16) - r["base"] - 4 in (256, 5 * 256, 7 * 256)
+               for l in r["logs"] for e in l):
+            argtags.append("padding-nonzero-observed")
+        tags = list(c["tags"]) + argtags + observed_tags(c, r) + stop_tags(c, r) + ["mode:" + ("soak" if c["kind"] == "soak" else "step"),
                                                         "writers=%d" % c["nw"], "threads=%d" % c["nt"]]
         ctx.case(key=(c["kind"], c["bufsize"], c["nw"], c["nt"], tuple(c["ops"])), nontrivial=nrec >= 4, tags=tags,
                  size=len(c["ops"]),
@@ -709,6 +849,7 @@ def run(ctx):
         allm += m
         allv += v
     ctx.extra["disagreements_checked"] = len(allm)
+    ctx.extra["snapshots_compared"] = sum(len(r["snaps"]) for r in results)
     ctx.extra["cases_step"] = sum(1 for c in cases if c["kind"] != "soak")
     ctx.extra["cases_soak"] = sum(1 for c in cases if c["kind"] == "soak")
     # the loss that is never reported (refuted theorem): witness
@@ -742,7 +883,7 @@ def run(ctx):
 def replay(ctx, obj):
     exes = build_harnesses(ctx)
     case = {"bufsize": obj["bufsize"], "nw": obj["nw"], "nt": obj["nt"], "ops": [tuple(o) for o in obj["ops"]],
-            "kind": obj.get("mode", "random"), "seed": obj.get("case_seed", 1), "tags": []}
+            "kind": obj.get("mode", "random"), "seed": obj.get("case_seed", 1), "tags": [], "args": obj.get("args")}
     r = execute(ctx, exes, case, 0)
     ctx.case(key=("replay", tuple(case["ops"])), size=len(case["ops"]))
     ev = evaluate(ctx, "c03_replay", [case], [r])
